@@ -795,6 +795,10 @@ void ApplyOptions(const Workload &w, const draco::PointCloud &pc,
 
 
 // ------------------------------------------------- legacy writer stub -----
+// (legacy_eb.cc)
+bool EncodePredictiveEdgebreaker(const Workload &w, const draco::Mesh &mesh,
+                                 std::vector<uint8_t> *out, std::string *err);
+
 // Older bitstreams are produced by rewriting the container bytes of the
 // current encoder's output (the entropy-coded payloads are unchanged between
 // these versions; only counts, index widths and the place of a few header
@@ -935,6 +939,11 @@ bool LegacyKdTreeFloat(const Workload &w, const draco::PointCloud &geom,
 bool EncodeGeometry(const Workload &w, const draco::PointCloud &geom,
                     std::vector<uint8_t> *out, std::string *err) {
   if (w.legacy == 3) return LegacyKdTreeFloat(w, geom, out, err);
+  if (w.legacy == 4) {
+    if (w.kind != 0) return LegacyFail(err, "predictive edgebreaker needs a mesh");
+    return EncodePredictiveEdgebreaker(w, static_cast<const draco::Mesh &>(geom),
+                                       out, err);
+  }
   draco::EncoderBuffer buf;
   draco::Status st;
   if (w.kind == 2) {
